@@ -53,3 +53,5 @@ void * __tsan_memmove(void * d, const void * s, unsigned long n) { return memmov
 AT(8, uint8_t) AT(16, uint16_t) AT(32, uint32_t) AT(64, uint64_t)
 void __tsan_atomic_thread_fence(int mo) { (void)mo; __atomic_thread_fence(__ATOMIC_SEQ_CST); }
 void __tsan_atomic_signal_fence(int mo) { (void)mo; }
+
+int mv_is_fine = 1;
